@@ -35,9 +35,10 @@ type ESel struct {
 type EIndex struct{ X, I Expr }
 type ESliceE struct{ X, Lo, Hi Expr }
 type EQuant struct {
-	Forall bool
-	Vars   []QVar
-	Body   Expr
+	Forall   bool
+	Vars     []QVar
+	Body     Expr
+	Patterns [][]Expr // optional explicit triggers: forall x T {p1, p2}{q} :: body
 }
 type QVar struct{ Name, Type string }
 type ECond struct{ C, A, B Expr }
@@ -251,7 +252,7 @@ func (ps *specParser) binary(min int) Expr {
 
 func (ps *specParser) unary() Expr {
 	t := ps.peek()
-	if t.k == "op" && (t.s == "!" || t.s == "-" || t.s == "^") {
+	if t.k == "op" && (t.s == "!" || t.s == "-" || t.s == "^" || t.s == "*") {
 		ps.next()
 		return EUn{t.s, ps.unary()}
 	}
@@ -263,20 +264,44 @@ func (ps *specParser) unary() Expr {
 			if nm.k != "id" {
 				ps.fail("quantifier variable expected")
 			}
+			tyname := ""
+			if ps.isOp("*") {
+				ps.next()
+				tyname = "*"
+			}
 			ty := ps.next()
 			if ty.k != "id" {
 				ps.fail("quantifier type expected")
 			}
-			vars = append(vars, QVar{nm.s, ty.s})
+			tyname += ty.s
+			if ps.isOp(".") {
+				ps.next()
+				t2 := ps.next()
+				tyname += "." + t2.s
+			}
+			vars = append(vars, QVar{nm.s, tyname})
 			if ps.isOp(",") {
 				ps.next()
 				continue
 			}
 			break
 		}
+		var pats [][]Expr
+		for ps.isOp("{") {
+			ps.next()
+			var grp []Expr
+			for !ps.isOp("}") {
+				grp = append(grp, ps.expr())
+				if ps.isOp(",") {
+					ps.next()
+				}
+			}
+			ps.expect("}")
+			pats = append(pats, grp)
+		}
 		ps.expect("::")
 		body := ps.expr()
-		return EQuant{t.s == "forall", vars, body}
+		return EQuant{t.s == "forall", vars, body, pats}
 	}
 	return ps.postfix()
 }
@@ -415,7 +440,15 @@ func substExpr(e Expr, m map[string]Expr) Expr {
 		for _, v := range x.Vars {
 			delete(m2, v.Name)
 		}
-		return EQuant{x.Forall, x.Vars, substExpr(x.Body, m2)}
+		var np [][]Expr
+		for _, g := range x.Patterns {
+			var ng []Expr
+			for _, e := range g {
+				ng = append(ng, substExpr(e, m2))
+			}
+			np = append(np, ng)
+		}
+		return EQuant{x.Forall, x.Vars, substExpr(x.Body, m2), np}
 	case ECond:
 		return ECond{substExpr(x.C, m), substExpr(x.A, m), substExpr(x.B, m)}
 	}
